@@ -1,0 +1,17 @@
+//go:build verif
+
+// Machine-checked contracts for package envs (comment-only; read by /verif/gocv).
+
+package envs
+
+// Environment getters are functions of the environment value; the session environment's default
+// language additionally depends on the session contact's language.
+//@ interface Environment.AllowedLanguages
+//@   pure
+
+//@ interface Environment.DefaultLanguage
+//@   pure
+//@   reads flows.Contact::language, engine.session::contact
+
+//@ interface Environment.RedactionPolicy
+//@   pure
